@@ -179,12 +179,12 @@ example : (final [[.guc 1 1 9 true, .purge 9, .guc 2 2 9 true]] (List.replicate 
 /-- the window between sending the LS request and storing its timer: a reply handled in that window leaves a live,
 uncancelled retransmit timer behind (spurious retransmissions; no request is lost – `ls_exactly_once`). -/
 theorem ls_stale_timer_witness :
-    let s := final [[.guc 1 1 9 true], [.lsReply 2 9 1]]
+    let s := final [[.guc 1 1 9 true], [.lsReply 2 9 1 true]]
       (List.replicate 22 0 ++ List.replicate 30 1 ++ List.replicate 10 0)
     s.lsTimer 9 = some 1 ∧ s.tStarted 1 = true ∧ s.tCancelled 1 = false ∧ s.lsSent 9 = [1] ∧ s.pending 9 = false := by
   decide +kernel
 
-example : ((final [[.guc 1 1 9 true], [.lsReply 2 9 1]] (List.replicate 40 0 ++ List.replicate 30 1)).lsSent 9) = [1] := by
+example : ((final [[.guc 1 1 9 true], [.lsReply 2 9 1 true]] (List.replicate 40 0 ++ List.replicate 30 1)).lsSent 9) = [1] := by
   decide +kernel
 
 /-! ## Deadlock freedom, exceptions -/
